@@ -50,10 +50,13 @@ def _case(draw):
             shape = draw(st.lists(st.integers(1, 6), min_size=0, max_size=3))
             while packed_numel(shape, False) > 40:
                 shape[-1] = max(1, shape[-1] // 2)
+            if shape and draw(st.integers(0, 9)) == 0:
+                shape[draw(st.integers(0, len(shape) - 1))] = 0          # a tensor without elements (0 bytes) is a valid tensor too
         calls.append({'group': draw(st.integers(0, ngroups - 1)), 'shape': shape,
                       'dtype': single_dtype or draw(st.sampled_from(DT)), 'average': draw(st.booleans()), 'symmetric': sym,
                       'transposed': (not sym) and len(shape) == 2 and draw(st.booleans())})
     sizes = sorted(packed_numel(c['shape'], c['symmetric']) * ESIZE[c['dtype']] for c in calls if 'shape' in c) or [4]
+    sizes = [z for z in sizes if z > 0] or [4]
     cap = draw(st.sampled_from([max(1, sizes[0] - 1), sizes[0], sizes[len(sizes) // 2], sizes[-1], sizes[-1] + sizes[0],
                                 sum(sizes) + 1, 25_000_000]))
     return {'W': W, 'parts': parts, 'calls': calls, 'cap_bytes': cap,
